@@ -453,6 +453,7 @@ class Executor(object):
         return st
 
     def _run_path(self, finfo, contract):
+        self.iter_start = None
         st = self.initial_state(finfo, contract)
         entry = st.copy()
         self.entry = entry
@@ -519,7 +520,11 @@ class Executor(object):
             st.locals[pn] = entry.locals[pn]
         self._apply_ghost_updates(st, entry, contract, result)
         for cl in contract.exit_hints:
-            t = self.ceval(cl.expr, st, entry, result)
+            try:
+                t = self.ceval(cl.expr, st, entry, result)
+            except OutOfSubset:
+                continue        # the hint refers to a loop iteration this path never started
+
             self.oblige(st, cl.label, t, cl, kind='hint', note='proof hint at exit (proved, then assumed)')
             self.assume(st, t)
         for cl in contract.ensures:
@@ -732,6 +737,20 @@ class Executor(object):
             raise PyExc(ExcV('AssertionError'))
 
     def st_Assign(self, s, st):
+        if (isinstance(s.value, ast.List) and len(s.targets) == 1 and isinstance(s.targets[0], ast.Name) and self.contract is not None
+                and self.inline_depth == 0 and s.targets[0].id in self.contract.local_types
+                and self.contract.local_types[s.targets[0].id].kind == 'list'
+                and not any(isinstance(e, ast.Starred) for e in s.value.elts) and s.value.elts):
+            lt = self.contract.local_types[s.targets[0].id]
+            ept = lt.args[0]
+            parts = []
+            for e in s.value.elts:
+                ev = self.ev(e, st)
+                if ev.pt.kind == 'opt' and ept.kind not in ('opt', 'cell') and ev.pt.args[0] == ept:
+                    ev = self.unwrap_opt(st, ev, e)
+                parts.append(Unit(self.coerce(ev, ept, st).t))
+            st.locals[s.targets[0].id] = self.new_list(st, ept, Concat(*parts))
+            return
         v = self.ev(s.value, st)
         for tgt in s.targets:
             self.assign(tgt, v, st)
@@ -1488,10 +1507,17 @@ class Executor(object):
             if self._pure(n.values[i + 1:]):
                 # no side effects ahead: build a term instead of forking
                 rest = [c]
-                ok = True
+                npc = len(st.pc)
+                # later operands are only evaluated when the earlier ones did not decide the result:
+                # obligations raised while evaluating them carry that guard
+                guard = c if is_and else Not(c)
+                st.pc.append(guard)
                 for e2 in n.values[i + 1:]:
                     v2 = self.ev(e2, st)
-                    rest.append(self.truth(st, v2))
+                    t2 = self.truth(st, v2)
+                    rest.append(t2)
+                    st.pc.append(t2 if is_and else Not(t2))
+                del st.pc[npc:]
                 return SV(TBool, And(*rest) if is_and else Or(*rest))
             k = self.branch(st, c)
             if k != is_and:
